@@ -87,6 +87,15 @@ def operations(root, rng):
     add("mp_io.graph", lambda: quiet(mp_io.graph, root, 0))
     add("export.to_xml", lambda: export.to_xml(root))
     add("Node.is_equal", lambda: (Node.is_equal(root, other), Node.is_equal(other, root)))
+    for n in picks[1:]:
+        # fragment exports: the same read-only entry points applied to a node that has a parent
+        add("metapype_io.to_xml", lambda n=n: metapype_io.to_xml(n))
+        add("metapype_io.to_json", lambda n=n: metapype_io.to_json(n))
+        add("export.to_xml", lambda n=n: export.to_xml(n))
+        add("metapype_io.graph", lambda n=n: metapype_io.graph(n))
+        add("mp_io.to_json", lambda n=n: mp_io.to_json(n))
+        add("validate.tree(errs)", lambda n=n: collecting(mvalidate.tree, n))
+        add("evaluate.tree", lambda n=n: warnings(n))
     for n in picks:
         add("validate.node", lambda n=n: mvalidate.node(n))
         add("validate.node(errs)", lambda n=n: collecting(mvalidate.node, n))
